@@ -100,6 +100,17 @@ CLAIMED = {
              "ValueError and leave the state bit-for-bit unchanged.",
         design="§4 C08", technique="source-to-Coq translation of setter guards + Coq proof (homogeneity lemmas, vm_compute table check) + reflection-driven correspondence",
         note="single semi-axes and the rounding radius are direct parameters (not similarities); getters undefined for a class are not judged; known finding polytri thresholds."),
+    "C03": dict(
+        text="Cache-coherence automaton (fresh/stale tag per cached attribute; transform + write set per mutator; invariance table): theorem by induction "
+             "over ALL histories that every attribute is fresh after any sequence of mutators, for ConvexPolyhedron, Polyhedron and Polygon (spheropolytopes "
+             "delegate); the automaton's write sets are proved equal (vm_compute) to the write sets REGENERATED from the source on every run, transitively "
+             "through self.method() calls and property assignments; size setters proved to reach the geometry only through _rescale; the pre-fix behaviour "
+             "(no _equations refresh, no edge-cache invalidation) is refuted in the automaton. Implementation side: exhaustive histories to depth 2 (3 in "
+             "thorough) over ~10 operations x 6 classes plus random walks, each prefix compared observable-by-observable (reflection) with a freshly "
+             "constructed shape; refused operations must leave the private state bit-for-bit unchanged.",
+        design="§4 C03", technique="Coq invariant-by-induction over an automaton whose write sets are translated from the source + exhaustive bounded history exploration of the implementation",
+        note="the invariance table and 'a written attribute is written with the right rule' are modelled (rules partly proved: ScalingThm, MeshThm translation lemmas); "
+             "implementation explored to bounded depth; tolerance 1e-8 relative to each array's magnitude."),
 }
 
 REASON_TODO = "check not built yet (work in progress this round)"
